@@ -102,7 +102,20 @@ def create_load_table(
                     create_table_file = True
                     break
 
-    if (create_table_file or force_create) and not force_load:
+    table = None
+    if not (create_table_file or force_create) or force_load:
+        if debug:
+            h_print(f"Loading LR table from '{table_file_name}'")
+        try:
+            table = load_table(table_file_name, grammar)
+        except (ValueError, KeyError, IndexError, AttributeError, TypeError):
+            # The table file can't be decoded (e.g. it was left truncated by
+            # an interrupted write) or it doesn't fit this grammar. Treat it
+            # as if it doesn't exist: calculate the table and write it anew.
+            if force_load:
+                raise
+
+    if table is None:
         table = create_table(
             grammar,
             itemset_type,
@@ -115,10 +128,6 @@ def create_load_table(
         if table_file_name:
             with contextlib.suppress(PermissionError):
                 save_table(table_file_name, table)
-    else:
-        if debug:
-            h_print(f"Loading LR table from '{table_file_name}'")
-        table = load_table(table_file_name, grammar)
 
     return table
 
@@ -137,6 +146,37 @@ def _verif_state_budget():
 
 
 def create_table(
+    grammar,
+    itemset_type=LR_1,
+    start_production=1,
+    prefer_shifts=False,
+    prefer_shifts_over_empty=True,
+    debug=False,
+    **kwargs,
+):
+    """
+    Creates LR table. See `_create_table` for the arguments.
+
+    The augmented production of the grammar is rewritten during the table
+    construction. It is restored on every exit, an exception included, so
+    that the grammar stays usable for later constructions.
+    """
+    old_start_production_rhs = grammar.productions[0].rhs
+    try:
+        return _create_table(
+            grammar,
+            itemset_type,
+            start_production,
+            prefer_shifts,
+            prefer_shifts_over_empty,
+            debug=debug,
+            **kwargs,
+        )
+    finally:
+        grammar.productions[0].rhs = old_start_production_rhs
+
+
+def _create_table(
     grammar,
     itemset_type=LR_1,
     start_production=1,
@@ -501,9 +541,10 @@ class LRTable:
                         else 0
                     )
                     +
-                    # Account for `\b` at the beginning and end of keyword regex
+                    # A keyword ranks as the string it is written as (the
+                    # recognizer is named by the keyword text)
                     (
-                        (len(symbol.recognizer._regex) - 4)
+                        len(symbol.recognizer.name)
                         if type(symbol.recognizer) is RegExRecognizer and symbol.keyword
                         else 0
                     )
